@@ -69,6 +69,7 @@ func VerifC10_RoundTrip8() {
 	rt.Assert(err == nil, "rt8/no-error")
 	rt.Assert(v == n, "rt8/value")
 	rt.Assert(used == len(p), "rt8/consumed")
+	rt.ObserveBytes("packed", p)
 	rt.Reach("rt8-end")
 }
 
@@ -80,6 +81,7 @@ func VerifC10_RoundTrip16() {
 	rt.Assert(err == nil, "rt16/no-error")
 	rt.Assert(v == n, "rt16/value")
 	rt.Assert(used == len(p), "rt16/consumed")
+	rt.ObserveBytes("packed", p)
 	rt.Reach("rt16-end")
 }
 
@@ -91,6 +93,7 @@ func VerifC10_RoundTrip32() {
 	rt.Assert(err == nil, "rt32/no-error")
 	rt.Assert(v == n, "rt32/value")
 	rt.Assert(used == len(p), "rt32/consumed")
+	rt.ObserveBytes("packed", p)
 	rt.Reach("rt32-end")
 }
 
@@ -102,6 +105,7 @@ func VerifC10_RoundTrip64() {
 	rt.Assert(err == nil, "rt64/no-error")
 	rt.Assert(v == n, "rt64/value")
 	rt.Assert(used == len(p), "rt64/consumed")
+	rt.ObserveBytes("packed", p)
 	rt.Reach("rt64-end")
 }
 
@@ -169,6 +173,9 @@ func VerifC10_Decode8() {
 	rt.Region("C10-unpack8-count", len(blob) >= 2 && blob[0] >= 0x80 && blob[1] == 1)
 	v, used, err := Unpack8(blob)
 	decoderObligations(blob, uint64(v), used, err, 8, "dec8")
+	rt.Observe("v", uint64(v))
+	rt.Observe("used", uint64(used))
+	rt.ObserveBool("ok", err == nil)
 	rt.Reach("dec8-end")
 }
 
@@ -176,6 +183,9 @@ func VerifC10_Decode16() {
 	blob := rt.BytesN("blob", 0, 12)
 	v, used, err := Unpack16(blob)
 	decoderObligations(blob, uint64(v), used, err, 16, "dec16")
+	rt.Observe("v", uint64(v))
+	rt.Observe("used", uint64(used))
+	rt.ObserveBool("ok", err == nil)
 	rt.Reach("dec16-end")
 }
 
@@ -183,6 +193,9 @@ func VerifC10_Decode32() {
 	blob := rt.BytesN("blob", 0, 12)
 	v, used, err := Unpack32(blob)
 	decoderObligations(blob, uint64(v), used, err, 32, "dec32")
+	rt.Observe("v", uint64(v))
+	rt.Observe("used", uint64(used))
+	rt.ObserveBool("ok", err == nil)
 	rt.Reach("dec32-end")
 }
 
@@ -190,6 +203,9 @@ func VerifC10_Decode64() {
 	blob := rt.BytesN("blob", 0, 12)
 	v, used, err := Unpack64(blob)
 	decoderObligations(blob, v, used, err, 64, "dec64")
+	rt.Observe("v", v)
+	rt.Observe("used", uint64(used))
+	rt.ObserveBool("ok", err == nil)
 	rt.Reach("dec64-end")
 }
 
@@ -229,6 +245,9 @@ func VerifC10_GetNextBlock() {
 	if st == 0 && rv > uint64(len(data)-rn) {
 		rt.Assert(err != nil, "gnb/must-fail-too-long")
 	}
+	rt.ObserveBytes("block", block)
+	rt.Observe("total", uint64(total))
+	rt.ObserveBool("ok", err == nil)
 	rt.Reach("gnb-end")
 }
 
